@@ -33,7 +33,7 @@ package resolve
 //@   safety nil
 
 //@ func DataBuffer.Get
-//@   requires d != nil && held(d.mu)
+//@   requires d != nil
 //@   ensures result == d.data
 //@   pure
 
@@ -718,6 +718,10 @@ package resolve
 //@ decl stable subscriptionUpdater.triggerID by Resolver.addSubscription
 //@ decl stable subscriptionState.completed by Resolver.addSubscription
 //@ decl stable subscriptionState.writer by Resolver.addSubscription
+//@ decl stable subscriptionState.resolve by Resolver.addSubscription
+//@ decl stable subscriptionState.ctx by Resolver.addSubscription
+//@ decl stable GraphQLSubscription.Response
+//@ decl stable subscriptionUpdater.done by subscriptionUpdater.Done
 
 //@ func SubscriptionResponseWriter.Write
 //@   modifies global(ext)
@@ -745,35 +749,30 @@ package resolve
 //@   trusted interface method (writes a formatted error to the given writer)
 
 //@ func subscriptionState.complete
-//@   requires s != nil && !held(s.writeMu)
+//@   requires !held(s.writeMu)
 //@   modifies *, count(wrote)
-//@   safety nil
 
 //@ func subscriptionState.error
-//@   requires s != nil && !held(s.writeMu)
+//@   requires !held(s.writeMu)
 //@   modifies *, count(wrote)
-//@   safety nil
 
 //@ func subscriptionState.writeError
-//@   requires s != nil && !held(s.writeMu)
+//@   requires !held(s.writeMu)
 //@   modifies *, count(wrote)
-//@   safety nil
 
 //@ func subscriptionState.sendHeartbeat
-//@   requires s != nil && !held(s.writeMu)
+//@   requires !held(s.writeMu)
 //@   modifies *, count(wrote)
-//@   safety nil
 
 // done: the one place completed is closed; needs the close permission and consumes it
 //@ func subscriptionState.done
-//@   requires s != nil && !held(s.writeMu) && s.closePerm
+//@   requires !held(s.writeMu) && s.closePerm
 //@   at call close: assert {close.under.writeMu} held(s.writeMu)
 //@   at call close: assert {close.with.permission} s.closePerm
 //@   at call close: ghost s.closePerm = false
 //@   ensures !s.closePerm
 //@   ensures {nothing.written} count(wrote) == old(count(wrote))
 //@   modifies s.closePerm
-//@   safety nil
 
 // ----------------------------------------------------------------------------------------------
 // C14 seeding completeness: after authorizePreFetch every collected coordinate has a decision
@@ -858,3 +857,301 @@ package resolve
 //@   requires l != nil && prepared != nil
 //@   ensures {flushed.once} old(l.ctx != nil && l.ctx.responseCache != nil) ==> len(prepared.responseCacheItems) == 0
 //@   modifies *, count(cacheSet)
+
+// ----------------------------------------------------------------------------------------------
+// C14: every loader that executes fetches for a request with pre-fetch authorization carries the
+// request's seeded decisions (otherwise isFetchAuthorizedFromCache prunes nothing)
+//@ spec loaderAuthOK(l *Loader) bool = l.ctx != nil && (l.ctx.preFetchFieldAuthorizer != nil ==> l.authorization != nil)
+
+//@ func NewFieldAuthorization
+//@   ensures result != nil && result.ctx == ctx && result.allow != nil && result.deny != nil
+//@   fresh
+//@   pure
+
+//@ func NewLoader
+//@   ensures result != nil && result.authorization == authorization && result.dataBuffer == db
+//@   fresh
+//@   pure
+
+//@ func Loader.Init
+//@   requires l != nil
+//@   ensures l.ctx == ctx
+//@   modifies l.errors, l.skipValueCompletion, l.subgraphErrors, l.ctx, l.info, l.taintedObjs, l.erroredFetchIDs
+
+//@ func Loader.ResolveFetchNode
+//@   requires l != nil
+//@   requires {prefetch.loader.has.decisions} loaderAuthOK(l)
+//@   modifies *, count(*)
+//@   trusted entry point of fetch execution (resolveFetchNodeWithCtx dispatch); the contract carries the loader invariant
+
+//@ func Loader.LoadGraphQLResponseData
+//@   requires l != nil && ctx != nil && response != nil
+//@   requires {prefetch.loader.has.decisions} ctx.preFetchFieldAuthorizer != nil ==> l.authorization != nil
+//@   modifies *, count(*)
+
+//@ decl stable Context.preFetchFieldAuthorizer by Context.SetPreFetchFieldAuthorizer, Context.Free, Context.clone
+
+//@ func Resolver.resolveDeferSingle
+//@   requires r != nil && dc != nil && ctx != nil && dc.db != nil && !held(dc.db.mu)
+//@   requires {deferred.loaders.share.decisions} ctx.preFetchFieldAuthorizer != nil ==> dc.authorization != nil
+//@   modifies *, count(*)
+//@   safety lockbalance-off
+//@ decl stable deferContext.db
+//@ decl stable deferContext.authorization
+//@ decl stable deferContext.resolvable
+//@ decl stable deferContext.writer
+
+// ----------------------------------------------------------------------------------------------
+// C12/C13: removal creates the close permission (winning CAS on removed), closeSubs consumes it
+//@ decl closeperm subscriptionState.closePerm from cas removed
+
+//@ func closeSubs
+//@   requires noneheld(subscriptionState.writeMu)
+//@   requires forall k in 0..len(subs) :: subs[k].closePerm
+//@   requires forall a in 0..len(subs) :: forall b in 0..len(subs) :: a != b ==> subs[a] != subs[b]
+//@   ensures forall k in 0..len(subs) :: !subs[k].closePerm
+//@   ensures {nothing.written} count(wrote) == old(count(wrote))
+//@   ensures noneheld(subscriptionState.writeMu)
+//@   modifies allof(subscriptionState.closePerm)
+//@   loop 0:
+//@     invariant noneheld(subscriptionState.writeMu) && count(wrote) == old(count(wrote))
+//@     invariant forall k in 0..len(subs) :: (k > phi0 ==> subs[k].closePerm) && (k <= phi0 ==> !subs[k].closePerm)
+
+//@ func Resolver.unregisterSubscriptionLocked
+//@   requires r != nil && held(r.mu)
+//@   modifies allmaps(r.subscriptionsByID), allmaps(r.subscriptionsByConnection)
+//@   safety none
+
+//@ func Resolver.removeSubscriptionLocked
+//@   requires r != nil && held(r.mu) && noneheld(trigger.mu)
+//@   ensures {returned.states.carry.close.permission} forall k in 0..len(result.toClose) :: result.toClose[k].closePerm && !oldsel(result.toClose[k], closePerm)
+//@   ensures {at.most.one} len(result.toClose) <= 1
+//@   ensures {other.permissions.untouched} forall s :: (forall k in 0..len(result.toClose) :: result.toClose[k] != s) ==> ghostat(subscriptionState.closePerm, s) == old(ghostat(subscriptionState.closePerm, s))
+//@   ensures held(r.mu) && noneheld(trigger.mu)
+//@   modifies allmaps(r.subscriptionsByID), allmaps(r.subscriptionsByConnection), allmaps(r.triggers), allatomic(subscriptionState.removed), allatomic(trigger.initialized), allof(subscriptionState.closePerm)
+//@   safety none
+
+//@ func Resolver.detachTriggerLocked
+//@   requires r != nil && held(r.mu) && noneheld(trigger.mu)
+//@   ensures {returned.states.carry.close.permission} forall k in 0..len(result.toClose) :: result.toClose[k].closePerm
+//@   ensures {returned.states.distinct} forall a in 0..len(result.toClose) :: forall b in 0..len(result.toClose) :: a != b ==> result.toClose[a] != result.toClose[b]
+//@   ensures {returned.states.had.no.permission} forall k in 0..len(result.toClose) :: !oldsel(result.toClose[k], closePerm)
+//@   ensures {other.permissions.untouched} forall s :: (forall k in 0..len(result.toClose) :: result.toClose[k] != s) ==> ghostat(subscriptionState.closePerm, s) == old(ghostat(subscriptionState.closePerm, s))
+//@   ensures held(r.mu) && noneheld(trigger.mu)
+//@   modifies allmaps(r.subscriptionsByID), allmaps(r.subscriptionsByConnection), allmaps(r.triggers), allatomic(subscriptionState.removed), allatomic(trigger.initialized), allof(subscriptionState.closePerm)
+//@   safety none
+//@   loop 0:
+//@     invariant held(r.mu) && held(trig.mu) && fresh(toClose)
+//@     invariant forall k in 0..len(toClose) :: toClose[k].closePerm && !oldsel(toClose[k], closePerm)
+//@     invariant forall a in 0..len(toClose) :: forall b in 0..len(toClose) :: a != b ==> toClose[a] != toClose[b]
+//@     invariant forall s :: (forall k in 0..len(toClose) :: toClose[k] != s) ==> ghostat(subscriptionState.closePerm, s) == old(ghostat(subscriptionState.closePerm, s))
+
+// ----------------------------------------------------------------------------------------------
+// C13: registry maintenance happens under Resolver.mu; close permissions flow from removal to closeSubs;
+// trigger cancel functions are invoked after the lock is released, on every path; reporter counters
+// move only under the lock
+//@ decl stable Resolver.reporter by New
+//@ decl stable Resolver.ctx by New
+
+//@ func Reporter.SubscriptionCountInc
+//@   modifies global(ext)
+//@   emits subInc by count
+//@   trusted interface method (metrics)
+//@ func Reporter.SubscriptionCountDec
+//@   modifies global(ext)
+//@   emits subDec by count
+//@   trusted interface method (metrics)
+//@ func Reporter.TriggerCountInc
+//@   modifies global(ext)
+//@   emits trigInc by count
+//@   trusted interface method (metrics)
+//@ func Reporter.TriggerCountDec
+//@   modifies global(ext)
+//@   emits trigDec by count
+//@   trusted interface method (metrics)
+//@ func Reporter.SubscriptionUpdateSent
+//@   modifies global(ext)
+//@   trusted interface method (metrics)
+
+//@ func Resolver.getTrigger
+//@   requires r != nil && !held(r.mu)
+//@   ensures !held(r.mu)
+//@   modifies *
+
+// the trigger count moves only while the registry lock is held (so that it stays consistent with
+// membership in r.triggers, which detach reads under the same lock)
+//@ func Resolver.markTriggerInitialized
+//@   requires r != nil && !held(r.mu)
+//@   at call Reporter.TriggerCountInc: assert {count.moves.under.registry.lock} held(r.mu)
+//@   ensures !held(r.mu)
+//@   modifies *, count(trigInc)
+
+//@ func Resolver.doneTriggerFromUpdater
+//@   requires r != nil && !held(r.mu) && noneheld(trigger.mu) && noneheld(subscriptionState.writeMu)
+//@   ghost var g_cancel bool = false
+//@   ghost var g_cancelled bool = false
+//@   at call detachTriggerLocked: ghost g_cancel = result.triggerCancel != nil
+//@   at call Reporter.SubscriptionCountDec: assert {count.moves.under.registry.lock} held(r.mu)
+//@   at call Reporter.TriggerCountDec: assert {count.moves.under.registry.lock} held(r.mu)
+//@   at call closeSubs: assert {close.after.unlock} !held(r.mu)
+//@   at call dynamic:triggerCancel: assert {cancel.after.unlock} !held(r.mu)
+//@   at call dynamic:triggerCancel: ghost g_cancelled = true
+//@   ensures {detached.trigger.is.cancelled} g_cancel ==> g_cancelled
+//@   ensures !held(r.mu)
+//@   modifies *, allof(subscriptionState.closePerm), count(subDec), count(trigDec)
+
+//@ func Resolver.UnsubscribeSubscription
+//@   requires r != nil && !held(r.mu) && noneheld(trigger.mu) && noneheld(subscriptionState.writeMu)
+//@   ghost var g_cancel bool = false
+//@   ghost var g_cancelled bool = false
+//@   at call removeSubscriptionLocked: ghost g_cancel = result.triggerCancel != nil
+//@   at call Reporter.SubscriptionCountDec: assert {count.moves.under.registry.lock} held(r.mu)
+//@   at call Reporter.TriggerCountDec: assert {count.moves.under.registry.lock} held(r.mu)
+//@   at call closeSubs: assert {close.after.unlock} !held(r.mu)
+//@   at call dynamic:triggerCancel: assert {cancel.after.unlock} !held(r.mu)
+//@   at call dynamic:triggerCancel: ghost g_cancelled = true
+//@   ensures {emptied.trigger.is.cancelled} g_cancel ==> g_cancelled
+//@   ensures !held(r.mu)
+//@   modifies *, allof(subscriptionState.closePerm), count(subDec), count(trigDec)
+
+//@ func Resolver.removeClient
+//@   requires r != nil && !held(r.mu) && noneheld(trigger.mu)
+//@   at call Reporter.SubscriptionCountDec: assert {count.moves.under.registry.lock} held(r.mu)
+//@   at call Reporter.TriggerCountDec: assert {count.moves.under.registry.lock} held(r.mu)
+//@   ensures {returned.states.carry.close.permission} forall k in 0..len(result.toClose) :: result.toClose[k].closePerm
+//@   ensures {returned.states.distinct} forall a in 0..len(result.toClose) :: forall b in 0..len(result.toClose) :: a != b ==> result.toClose[a] != result.toClose[b]
+//@   ensures !held(r.mu) && noneheld(trigger.mu)
+//@   modifies *, allof(subscriptionState.closePerm), count(subDec), count(trigDec)
+//@   loop 0:
+//@     invariant held(r.mu) && noneheld(trigger.mu) && fresh(toClose) && fresh(ids) && len(toClose) == 0
+//@   loop 1:
+//@     invariant held(r.mu) && noneheld(trigger.mu) && fresh(toClose)
+//@     invariant forall k in 0..len(toClose) :: toClose[k].closePerm
+//@     invariant forall a in 0..len(toClose) :: forall b in 0..len(toClose) :: a != b ==> toClose[a] != toClose[b]
+
+//@ func Resolver.UnsubscribeClient
+//@   requires r != nil && !held(r.mu) && noneheld(trigger.mu) && noneheld(subscriptionState.writeMu)
+//@   ghost var g_toCancel int = 0
+//@   ghost var g_cancelled int = 0
+//@   at call removeClient: ghost g_toCancel = len(result.cancels)
+//@   at call closeSubs: assert {close.after.unlock} !held(r.mu)
+//@   at call dynamic:cancels: assert {cancel.after.unlock} !held(r.mu)
+//@   at call dynamic:cancels: ghost g_cancelled = g_cancelled + 1
+//@   ensures {every.emptied.trigger.is.cancelled} g_cancelled == g_toCancel
+//@   ensures !held(r.mu)
+//@   modifies *, allof(subscriptionState.closePerm), count(subDec), count(trigDec)
+//@   loop 0:
+//@     invariant !held(r.mu) && g_cancelled == phi0 + 1 && g_toCancel == len(res.cancels)
+
+// subscription event handlers: the terminal frames go through complete()/error(), which re-check removal under writeMu
+//@ func Resolver.handleTriggerComplete
+//@   requires r != nil && !held(r.mu) && noneheld(subscriptionState.writeMu)
+//@   ensures !held(r.mu) && noneheld(subscriptionState.writeMu)
+//@   modifies *, count(wrote)
+//@   loop 0:
+//@     invariant !held(r.mu) && noneheld(subscriptionState.writeMu)
+
+//@ func Resolver.handleTriggerError
+//@   requires r != nil && !held(r.mu) && noneheld(subscriptionState.writeMu)
+//@   ensures !held(r.mu) && noneheld(subscriptionState.writeMu)
+//@   modifies *, count(wrote)
+//@   loop 0:
+//@     invariant !held(r.mu) && noneheld(subscriptionState.writeMu)
+
+//@ func trigger.snapshotSubscriptions
+//@   modifies *
+//@   safety lockbalance-off
+//@   trusted copies the subscription map under the trigger's read lock
+
+// executeSubscriptionUpdate: every use of sub.writer is inside one writeMu critical section that first
+// observed removed == false (the `guarded` declaration generates the obligations at each load)
+//@ func Context.WithContext
+//@   ensures result != nil
+//@   fresh
+//@   pure
+//@   trusted shallow copy of the request context with another context.Context
+
+//@ func Resolver.executeSubscriptionUpdate
+//@   assumes sub.resolve != nil && sub.resolve.Response != nil && resolveCtx != nil
+//@   requires r != nil && sub != nil && noneheld(subscriptionState.writeMu) && !held(r.mu) && noneheld(trigger.mu)
+//@   ensures noneheld(subscriptionState.writeMu)
+//@   modifies *, count(*), allof(subscriptionState.closePerm)
+
+//@ func Resolver.executeSubscriptionHeartbeat
+//@   requires r != nil && sub != nil && noneheld(subscriptionState.writeMu) && !held(r.mu) && noneheld(trigger.mu)
+//@   ensures noneheld(subscriptionState.writeMu)
+//@   modifies *, count(*), allof(subscriptionState.closePerm)
+
+// subscriptionUpdater: every callback holds updater.mu for the whole call into the resolver (event A's
+// fan-out completes before B starts) and runs only after reading done == false under that lock
+//@ func subscriptionUpdater.Update
+//@   requires s != nil && !held(s.mu) && s.resolver != nil && !held(s.resolver.mu) && noneheld(trigger.mu) && noneheld(subscriptionState.writeMu)
+//@   at call handleTriggerUpdate: assert {serialised.by.updater.lock} held(s.mu) && !s.done
+//@   ensures !held(s.mu)
+//@   modifies *, count(*), allof(subscriptionState.closePerm)
+//@ func subscriptionUpdater.UpdateSubscription
+//@   requires s != nil && !held(s.mu) && s.resolver != nil && !held(s.resolver.mu) && noneheld(trigger.mu) && noneheld(subscriptionState.writeMu)
+//@   at call handleUpdateSubscription: assert {serialised.by.updater.lock} held(s.mu) && !s.done
+//@   ensures !held(s.mu)
+//@   modifies *, count(*), allof(subscriptionState.closePerm)
+//@ func subscriptionUpdater.Heartbeat
+//@   requires s != nil && !held(s.mu) && s.resolver != nil && !held(s.resolver.mu) && noneheld(trigger.mu) && noneheld(subscriptionState.writeMu)
+//@   at call heartbeatTriggerSubscriptions: assert {serialised.by.updater.lock} held(s.mu) && !s.done
+//@   ensures !held(s.mu)
+//@   modifies *, count(*), allof(subscriptionState.closePerm)
+//@ func subscriptionUpdater.Complete
+//@   requires s != nil && !held(s.mu) && s.resolver != nil && !held(s.resolver.mu) && noneheld(trigger.mu) && noneheld(subscriptionState.writeMu)
+//@   at call handleTriggerComplete: assert {serialised.by.updater.lock} held(s.mu) && !s.done
+//@   ensures !held(s.mu)
+//@   modifies *, count(*), allof(subscriptionState.closePerm)
+//@ func subscriptionUpdater.Error
+//@   requires s != nil && !held(s.mu) && s.resolver != nil && !held(s.resolver.mu) && noneheld(trigger.mu) && noneheld(subscriptionState.writeMu)
+//@   at call handleTriggerError: assert {serialised.by.updater.lock} held(s.mu) && !s.done
+//@   ensures !held(s.mu)
+//@   modifies *, count(*), allof(subscriptionState.closePerm)
+//@ func subscriptionUpdater.Done
+//@   requires s != nil && !held(s.mu) && s.resolver != nil && !held(s.resolver.mu) && noneheld(trigger.mu) && noneheld(subscriptionState.writeMu)
+//@   at call doneTriggerFromUpdater: assert {done.exactly.once} held(s.mu) && s.done
+//@   ensures !held(s.mu) && s.done
+//@   modifies *, count(*), allof(subscriptionState.closePerm)
+//@ func subscriptionUpdater.CloseSubscription
+//@   requires s != nil && !held(s.mu) && s.resolver != nil && !held(s.resolver.mu) && noneheld(trigger.mu) && noneheld(subscriptionState.writeMu)
+//@   at call UnsubscribeSubscription: assert {serialised.by.updater.lock} held(s.mu) && !s.done
+//@   ensures !held(s.mu)
+//@   modifies *, count(*), allof(subscriptionState.closePerm)
+
+//@ func Resolver.handleTriggerUpdate
+//@   requires r != nil && !held(r.mu) && noneheld(trigger.mu) && noneheld(subscriptionState.writeMu)
+//@   modifies *, count(*), allof(subscriptionState.closePerm)
+//@   trusted fan-out with sync.WaitGroup.Go closures (waits for all updates before returning); goroutine bodies call executeSubscriptionUpdate
+//@ func Resolver.handleUpdateSubscription
+//@   requires r != nil && !held(r.mu) && noneheld(trigger.mu) && noneheld(subscriptionState.writeMu)
+//@   modifies *, count(*), allof(subscriptionState.closePerm)
+//@ func Resolver.heartbeatTriggerSubscriptions
+//@   requires r != nil && !held(r.mu) && noneheld(trigger.mu) && noneheld(subscriptionState.writeMu)
+//@   modifies *, count(*), allof(subscriptionState.closePerm)
+//@   trusted iterates a snapshot and calls executeSubscriptionHeartbeat for due subscriptions
+//@ func trigger.filterSubscription
+//@   requires noneheld(trigger.mu)
+//@   ensures noneheld(trigger.mu)
+//@   modifies *, count(*)
+//@   trusted evaluates the subscription filter under the trigger lock
+
+//@ func Resolver.shutdownResolver
+//@   requires r != nil && !held(r.mu) && noneheld(trigger.mu) && noneheld(subscriptionState.writeMu)
+//@   at call Reporter.SubscriptionCountDec: assert {count.moves.under.registry.lock} held(r.mu)
+//@   at call Reporter.TriggerCountDec: assert {count.moves.under.registry.lock} held(r.mu)
+//@   at call closeSubs: assert {close.after.unlock} !held(r.mu)
+//@   at call dynamic:cancels: assert {cancel.after.unlock} !held(r.mu)
+//@   at call detachTriggerLocked: lemma {newly.detached.differ.from.collected} forall j in 0..len(result.toClose) :: forall k in 0..len(allToClose) :: result.toClose[j] != allToClose[k]
+//@   at call detachTriggerLocked: lemma {collected.keep.permission} forall k in 0..len(allToClose) :: allToClose[k].closePerm
+//@   ensures !held(r.mu)
+//@   modifies *, count(subDec), count(trigDec), allof(subscriptionState.closePerm)
+//@   loop 0:
+//@     invariant held(r.mu) && noneheld(trigger.mu) && fresh(triggerIDs)
+//@   loop 1:
+//@     invariant held(r.mu) && noneheld(trigger.mu) && fresh(allToClose) && fresh(cancels)
+//@     invariant forall k in 0..len(allToClose) :: allToClose[k].closePerm
+//@     invariant forall a in 0..len(allToClose) :: forall b in 0..len(allToClose) :: a != b ==> allToClose[a] != allToClose[b]
+//@   loop 2:
+//@     invariant !held(r.mu)
